@@ -177,6 +177,13 @@ class Session:
         if r.code == 0 and self.hashing:
             for n in cone:
                 self.records[n] = R.by_name[n].spec
+        elif self.hashing:
+            # the command failed part-way: a target whose outputs were all touched has been touched
+            done = set(order) | set(changed)
+            for n in cone:
+                outs = R.by_name[n].outset
+                if outs and outs <= done:
+                    self.records[n] = R.by_name[n].spec
         return r, cone
 
     def clean(self, pats, all_=True):
